@@ -156,62 +156,66 @@ COMPONENTS = ('FOREGROUND', 'BACKGROUND', 'UNDERLINE', 'DOUBLE_UNDERLINE')
 
 def s1_items(tier):
     out = []
-    for comp in COMPONENTS:
-        for form in ('three', 'one', 'one-inrange', 'three-inrange', 'g-only', 'b-only'):
-            out.append(['rgb', comp, form])
-        out.append(['color256', comp, 'any'])
-        out.append(['color256', comp, 'inrange'])
-    for alias in ('fg_rgb', 'bg_rgb', 'ul_rgb', 'dul_rgb'):
-        out.append(['alias-rgb', alias, 'three'])
-    for alias in ('fg_color256', 'bg_color256', 'ul_color256', 'dul_color256', 'fg_colour256', 'bg_colour256',
-                  'ul_colour256', 'dul_colour256'):
-        out.append(['alias-c256', alias, 'any'])
+    for cls in ('_AnsiControlFn', 'AnsiFormat'):
+        for comp in COMPONENTS:
+            for form in ('three', 'one', 'one-inrange', 'three-inrange', 'g-only', 'b-only'):
+                out.append([cls, 'rgb', comp, form])
+            out.append([cls, 'color256', comp, 'any'])
+            out.append([cls, 'color256', comp, 'inrange'])
+        for alias in ('fg_rgb', 'bg_rgb', 'ul_rgb', 'dul_rgb'):
+            out.append([cls, 'alias-rgb', alias, 'three'])
+        for alias in ('fg_color256', 'bg_color256', 'ul_color256', 'dul_color256', 'fg_colour256', 'bg_colour256',
+                      'ul_colour256', 'dul_colour256', 'colour256'):
+            out.append([cls, 'alias-c256', alias, 'any'])
     return out
 
 
-ALIAS_COMP = {'fg': 'FOREGROUND', 'bg': 'BACKGROUND', 'ul': 'UNDERLINE', 'dul': 'DOUBLE_UNDERLINE'}
+ALIAS_COMP = {'fg': 'FOREGROUND', 'bg': 'BACKGROUND', 'ul': 'UNDERLINE', 'dul': 'DOUBLE_UNDERLINE', 'colour256': 'FOREGROUND'}
 
 
 def s1_task(envr, item):
-    kind, comp, form = item
+    cls, kind, comp, form = item
     I = envr.interp
     cct = envr.program.enum_native['ColorComponentType']
+    inr = form.endswith('inrange')
+    if kind == 'rgb':
+        clauses, raises, names = (CL_RGBP if inr else CL_RGB), RAISES_RGB, None
+    elif kind == 'color256':
+        clauses, raises, names = (CL_C256P if inr else CL_C256), None, ['val', 'component']
+    elif kind == 'alias-rgb':
+        clauses, raises, names = CL_RGB, RAISES_RGB, None
+    else:
+        clauses, raises, names = CL_C256, None, ['val']
 
     def body(c):
-        for cls in (('_AnsiControlFn', 'AnsiFormat') if kind in ('rgb', 'color256') else ('AnsiFormat', '_AnsiControlFn')):
-            if kind == 'rgb':
-                component = I.lift_enum(cct[comp])
-                inr = form.endswith('inrange')
-                x = c.named_int('x', 0, 0xFFFFFF) if form == 'one-inrange' else c.named_int('x')
-                if form.startswith('three'):
-                    g = c.named_int('g', 0, 255) if inr else c.named_int('g')
-                    b = c.named_int('b', 0, 255) if inr else c.named_int('b')
-                    if inr:
-                        c.assume(b_and(i_cmp('>=', x, 0), i_cmp('<=', x, 255)))
-                elif form.startswith('one'):
-                    g = b = None
-                elif form == 'g-only':
-                    g, b = c.named_int('g'), None
-                else:
-                    g, b = None, c.named_int('b')
-                run_contract(envr, c, cls + '.rgb', None, [x, g, b, component], {}, CL_RGBP if inr else CL_RGB,
-                             raises=RAISES_RGB, label=cls)
-            elif kind == 'color256':
-                component = I.lift_enum(cct[comp])
-                v = c.named_int('val', 0, 255) if form == 'inrange' else c.named_int('val')
-                run_contract(envr, c, cls + '.color256', None, [v, component], {}, CL_C256P if form == 'inrange' else CL_C256,
-                             label=cls, arg_names=['val', 'component'])
-            elif kind == 'alias-rgb':
-                component = I.lift_enum(cct[ALIAS_COMP[comp.split('_')[0]]])
-                x, g, b = c.named_int('x'), c.named_int('g'), c.named_int('b')
-                run_contract(envr, c, cls + '.' + comp, None, [x, g, b], {}, CL_RGB, raises=RAISES_RGB,
-                             fields={'component': component}, label=cls)
+        if kind == 'rgb':
+            component = I.lift_enum(cct[comp])
+            x = c.named_int('x', 0, 0xFFFFFF) if form == 'one-inrange' else c.named_int('x')
+            if form.startswith('three'):
+                g = c.named_int('g', 0, 255) if inr else c.named_int('g')
+                b = c.named_int('b', 0, 255) if inr else c.named_int('b')
+                if inr:
+                    c.assume(b_and(i_cmp('>=', x, 0), i_cmp('<=', x, 255)))
+            elif form.startswith('one'):
+                g = b = None
+            elif form == 'g-only':
+                g, b = c.named_int('g'), None
             else:
-                component = I.lift_enum(cct[ALIAS_COMP[comp.split('_')[0]]])
-                v = c.named_int('val')
-                run_contract(envr, c, cls + '.' + comp, None, [v], {}, CL_C256, fields={'component': component}, label=cls,
-                             arg_names=['val'])
-    return ContractRun(body, [], replayable=False)
+                g, b = None, c.named_int('b')
+            run_contract(envr, c, cls + '.rgb', None, [x, g, b, component], {}, clauses, raises=raises)
+        elif kind == 'color256':
+            component = I.lift_enum(cct[comp])
+            v = c.named_int('val', 0, 255) if inr else c.named_int('val')
+            run_contract(envr, c, cls + '.color256', None, [v, component], {}, clauses, arg_names=names)
+        elif kind == 'alias-rgb':
+            component = I.lift_enum(cct[ALIAS_COMP[comp.split('_')[0]]])
+            x, g, b = c.named_int('x'), c.named_int('g'), c.named_int('b')
+            run_contract(envr, c, cls + '.' + comp, None, [x, g, b], {}, clauses, raises=raises, fields={'component': component})
+        else:
+            component = I.lift_enum(cct[ALIAS_COMP[comp.split('_')[0]]])
+            v = c.named_int('val')
+            run_contract(envr, c, cls + '.' + comp, None, [v], {}, clauses, fields={'component': component}, arg_names=names)
+    return ContractRun(body, clauses, raises=raises, names=names)
 
 
 GROUPS.append(Group('S1', 'rgb() / color256() helpers and their fg_/bg_/ul_/dul_ aliases (both on _AnsiControlFn and AnsiFormat): '
